@@ -43,6 +43,7 @@ static FAIL_NTH: AtomicI64 = AtomicI64::new(-1); // fail this one (0-based) ...
 static FAIL_ERRNO: AtomicI64 = AtomicI64::new(0); // ... with this errno
 static FAILED_REQ: AtomicI64 = AtomicI64::new(-1); // the request number that was failed
 static CASE_NO: AtomicU64 = AtomicU64::new(0); // odd while a case is being executed
+static REQLOG: std::sync::Mutex<Vec<u32>> = std::sync::Mutex::new(Vec::new()); // request numbers inside the window
 
 /// A call that never comes back is data: after `secs` inside one case the watchdog records it, kills the
 /// debuggee and ends the driver.
@@ -82,6 +83,9 @@ pub unsafe extern "C" fn ptrace(req: libc::c_uint, pid: libc::pid_t, addr: *mut 
     let f: PtraceFn = std::mem::transmute(real);
     if WINDOW.load(Ordering::SeqCst) == 1 {
         let n = NREQ.fetch_add(1, Ordering::SeqCst) as i64;
+        if let Ok(mut l) = REQLOG.try_lock() {
+            l.push(req);
+        }
         if n == FAIL_NTH.load(Ordering::SeqCst) {
             FAILED_REQ.store(req as i64, Ordering::SeqCst);
             *libc::__errno_location() = FAIL_ERRNO.load(Ordering::SeqCst) as i32;
@@ -404,6 +408,7 @@ fn mode_call(cfg: &Value, out: &mut NdjsonOut) {
         let args: Vec<Value> = c["args"].as_array().cloned().unwrap_or_default();
         let route = c["route"].as_str().unwrap_or("console");
         NREQ.store(0, Ordering::SeqCst);
+        REQLOG.lock().unwrap().clear();
         FAILED_REQ.store(-1, Ordering::SeqCst);
         if let (Some(n), true) = (fault["nth"].as_i64(), c["faulty"].as_bool().unwrap_or(false)) {
             FAIL_NTH.store(n, Ordering::SeqCst);
@@ -446,7 +451,8 @@ fn mode_call(cfg: &Value, out: &mut NdjsonOut) {
         let t_snap = std::time::Instant::now();
         let after = snap(&cx, &dbg, Some(s0.rsp));
         let us_snap = t_snap.elapsed().as_micros() as u64;
-        let mut rec = json!({"id": c["id"], "ok": ok, "err": err, "stage": stage, "ptrace_requests": nreq, "us_call": us_call, "us_snap": us_snap,
+        let mut rec = json!({"id": c["id"], "ok": ok, "err": err, "stage": stage, "ptrace_requests": nreq,
+            "requests": if fault.is_null() { Value::Null } else { json!(*REQLOG.lock().unwrap()) }, "us_call": us_call, "us_snap": us_snap,
             "failed_request": FAILED_REQ.load(Ordering::SeqCst)});
         match &after {
             Some(a) => {
